@@ -281,9 +281,10 @@ def distribution_case(rng, shape=None):
         base = [['D1', 0.2], ['D2', 0.6], ['A3', 0.2]]
         terms = {'D1': [['1', 0.5], ['2', 0.5]], 'D2': [['11', 0.5], ['22', 0.5]], 'A3': [['ab\u1f71', 0.5], ['xyz', 0.5]], 'C3': [['LLL', 0.5], ['ULL', 0.5]]}
     else:
-        base = [['A3', 0.5], ['D2', 0.3], ['O1D1', 0.2]]
+        base = [['A3', 0.45], ['D2', 0.25], ['O1D1', 0.2], ['X1', 0.1]]
         terms = {'A3': [['abc', 0.35], ['d\xe9g', 0.35], ['fox', 0.3]], 'C3': [['LLL', 0.5], ['ULL', 0.5]], 'D2': [['12', 0.4], ['34', 0.4], ['56', 0.2]],
-                 'O1': [['!', 0.5], ['#', 0.5]], 'D1': [['7', 0.6], ['8', 0.4]]}
+                 'O1': [['!', 0.5], ['#', 0.5]], 'D1': [['7', 0.6], ['8', 0.4]],
+                 'X1': [['Mr.', 1 / 3], [';p', 1 / 3], ['No.1', 1 / 3]]}          # context strings: one tie group, values of two, three and four characters
     return {'spec': {'encoding': 'utf-8', 'uuid': 'dist-%08x' % rng.getrandbits(32), 'base': base, 'prince': [], 'terms': terms, 'omen': None}, 'distribution': True,
             'n': 6000, 'hseed': rng.getrandbits(32)}
 
